@@ -221,6 +221,10 @@ def main():
            "generated_bodies": gst.get("bodies", 0), "stripped_variants": len(stripped), "dead_code_inert_ops": inert,
            "generator_states": gst.get("states", 0), "replay_states": st["states"],
            "builds": [b["name"] for b in builds], "ops_skipped_undefined": st["ops_skipped_undefined"], "exhaustive": False}
+    # the repository's own spec-suite corpus for this instruction family: model vs the suite's expectations, w2c2 vs model
+    sys.path.insert(0, os.path.dirname(os.path.abspath(__file__)))
+    import corpus
+    cov.update(corpus.phase(v, "C03", tier))
     return v.finish("model_checking", cov,
                     ["dead code generated is a conservative subset of what validation allows",
                      "loops are bounded idioms (at most 8 iterations per entry); unbounded executions are cut by fuel and not compared",
